@@ -21,9 +21,11 @@ def universes(tier, base="StateMachine"):
 
     quick:    first (must_finish or not), reg, mf, optional default; all timed with lazy next_state links;
               in-state scripts of length <= 1 with next_state_now nesting <= 1.
-    thorough: the timed shapes with in-state scripts of length <= 2 (two transitions / next_state_now calls in one
-              state call), the same shapes with untimed states, and five-state universes (second regular and second
-              must_finish state) with scripts of length 1.  Nesting of next_state_now stays at 1.
+    thorough: the same shapes also with untimed states, two five-state universes (second regular and second
+              must_finish state), all with scripts of length 1; and ONE timed universe (StateMachine only) with
+              two-request scripts whose first request is next_state_now ("hand over now, then ask again": where a
+              second request in one state call can get lost).  Unrestricted scripts of length 2 on every shape need
+              tens of GB and hours; that was run once during development (it found D6) and is not a registered tier.
     """
     out = []
     for first_mf in (False, True):
@@ -34,13 +36,16 @@ def universes(tier, base="StateMachine"):
                 if with_default:
                     specs.append(StateSpec("dflt", "default", params=("tm", "state_tm", "initial_call")))
                 name = f"{base}[{kind};first{'+mf' if first_mf else ''};{'default' if with_default else 'nodefault'}]"
-                out.append((name, specs, 2 if (tier == "thorough" and kind == "timed") else 1, 1))
+                out.append((name, specs, 1, 1))
     if tier == "thorough":
         for with_default in (False, True):
             specs = [StateSpec("first", "timed", first=True), StateSpec("reg", "timed"), StateSpec("mf", "timed", must_finish=True), StateSpec("reg2", "state"), StateSpec("mf2", "timed", must_finish=True)]
             if with_default:
                 specs.append(StateSpec("dflt", "default", params=("tm", "state_tm", "initial_call")))
             out.append((f"{base}[five states;{'default' if with_default else 'nodefault'}]", specs, 1, 1))
+        if base == "StateMachine":
+            specs = [StateSpec("first", "timed", first=True), StateSpec("reg", "timed"), StateSpec("mf", "timed", must_finish=True)]
+            out.append((f"{base}[timed;first;nodefault;two requests per state call, the first one next_state_now]", specs, 2, 1))
     return out
 
 
@@ -154,6 +159,23 @@ class SMHooks:
             opts = self.script_options()
             if after_done:
                 opts = [o for o in opts if o[0] in ("none", "next_state_now")]
+            elif self.max_script > 1 and step == 0:
+                # two-request scripts start with "hand over now" (the others are covered by length-1 scripts + closure)
+                opts = [o for o in opts if o[0] in ("none", "next_state_now")] + [o for o in opts if o[0] not in ("none", "next_state_now")]
+                self._first = opts[it.choose(len(opts), ("script", step))]
+                a = self._first
+                if a[0] == "none":
+                    return
+                saved = self.origin
+                self.origin = "statefn"
+                try:
+                    self.events.append(("action", a))
+                    it.call(it.getattr(machine, a[0]), list(a[1:]), {}, node)
+                finally:
+                    self.origin = saved
+                if a[0] != "next_state_now":
+                    return  # single request
+                continue
             a = opts[it.choose(len(opts), ("script", step))]
             if a[0] == "none":
                 return
